@@ -547,6 +547,20 @@ def has_nonprintable_rune(s):
     return False
 
 
+def printable_tab(s):
+    """the runes >= 0x80 decodable at some offset of s that unicode.IsPrint accepts (per go_isprint), for the oracle"""
+    out = set()
+    for i in range(len(s)):
+        for n in (2, 3, 4):
+            try:
+                r = s[i:i + n].decode("utf-8")
+            except UnicodeDecodeError:
+                continue
+            if len(r) == 1 and ord(r) >= 0x80 and go_isprint(ord(r)):
+                out.add(ord(r))
+    return ",".join("%x" % r for r in sorted(out)) or "-"
+
+
 def go_isprint(r):
     """unicode.IsPrint approximated by Python's str.isprintable (letters, marks, numbers, punctuation, symbols
     and ASCII space); only used to classify failures under the known finding, never to excuse anything else."""
@@ -570,7 +584,9 @@ def run(tier, seed):
     st = State(ck, gvh, oracle)
     st.corpus()
     st.pack_cases(8000 if tier == "quick" else 150000)
-    st.unpack_fuzz(4000 if tier == "quick" else 80000)
+    st.unpack_fuzz(2500 if tier == "quick" else 80000)
+    st.quote_cases(3 if tier == "quick" else 4)
+    st.number_cases(3000 if tier == "quick" else 60000)
     st.finish_pack()
     if not ok_obl:
         ck.violation("proof obligations of C17 no longer check: " + str(ck.cov.get("obligation_failure", ""))[:300],
@@ -843,6 +859,150 @@ class State:
             if not same:
                 self.im_difference(line, impl[i], model[i])
 
+    # -------------------------------------------------- %q + load
+    def quote_cases(self, maxlen):
+        import itertools
+        ck = self.ck
+        rng = ck.rng
+        strs = [b""]
+        for n in range(1, maxlen + 1):
+            if n <= 2 or (n == 3 and maxlen >= 4):
+                strs += [b"".join(t) for t in itertools.product(Q_ALPHA, repeat=n)]
+            else:
+                # a third of all strings of this length (all of them in the thorough tier at length 3)
+                for t in itertools.product(Q_ALPHA, repeat=n):
+                    if rng.below(5 if n == 3 else 40) == 0:
+                        strs.append(b"".join(t))
+        for _ in range(2000):
+            strs.append(bytes(rng.below(256) for _ in range(rng.geometric(5, 6))))
+            strs.append(b"".join(rng.choice(Q_ALPHA) for _ in range(4 + rng.below(3))))
+        lines = ["q%d Q %s %s" % (i, val_tok(s), printable_tab(s)) for i, s in enumerate(strs)]
+        impl, model = self.both(lines)
+        for i, s in enumerate(strs):
+            if i >= len(impl) or i >= len(model):
+                break
+            gi, mo = fields(impl[i]), fields(model[i])
+            ck.count("q:len%d" % min(len(s), 7))
+            ck.case(lines[i].split(" ", 1)[1], True)
+            lit = bytes.fromhex(gi["Q"]) if gi.get("Q", "-") != "-" else b""
+            good = gi.get("L") == "K" and gi.get("V") == val_tok(s)
+            # S: the literal must denote s under the manual's rules, and load must give s back
+            ref = ref_unescape(lit)
+            ck.count("q:" + ("roundtrip" if good else "fails:" + gi.get("L", "?")))
+            if not good or ref != s:
+                if has_nonprintable_rune(s) and re.search(rb"\\[uU][0-9a-f]{4}", lit) and self.known("C17-q-nonprintable-rune"):
+                    ck.count("known:C17-q-nonprintable-rune")
+                else:
+                    self.s_violation("load('return '..string.format('%%q', s))() does not give s back (s = %r)" % s,
+                                     {"kind": "Go!=S", "engine": "pack", "line": lines[i], "literal": lit.decode("latin-1"),
+                                      "impl": impl[i], "model": model[i], "manual_reading": repr(ref),
+                                      "theorems": ["C17_quote_load_string_refuted"]})
+            same = gi.get("Q") == mo.get("Q") and gi.get("L") == mo.get("L") and (gi.get("L") != "K" or gi.get("V") == mo.get("V"))
+            if not same:
+                self.im_difference(lines[i], impl[i], model[i])
+        ck.sample({"%q of": "e2808b61", "impl": next((impl[i] for i, s in enumerate(strs) if s == b"\xe2\x80\x8b" and i < len(impl)), None)})
+
+    # -------------------------------------------------- numbers: %q, tostring/tonumber, printf directives
+    def number_cases(self, n):
+        ck = self.ck
+        rng = ck.rng
+        ints = [0, 1, -1, 9, 10, -10, 99, 100, 255, 256, MAXINT, MININT, MAXINT - 1, MININT + 1, 2 ** 53, 2 ** 53 + 1, -(2 ** 53) - 1,
+                2 ** 31, 2 ** 31 - 1, -(2 ** 31), 2 ** 32, 10 ** 18, -(10 ** 18), 999999999999999999, 1000000000000000000]
+        ints += [(1 << k) + d for k in range(1, 63) for d in (-1, 0, 1)] + [-(1 << k) + d for k in range(1, 64) for d in (-1, 0, 1) if -(1 << k) + d >= MININT]
+        while len(ints) < n // 3:
+            ints.append(rng.next() % (1 << 64) - (1 << 63) if rng.chance(1, 2) else rng.below(100000) - 50000)
+        flts = list(FLOATS) + [-x for x in FLOATS] + [100.0, 1e6, 1e5, 123456.0, 1234567.0, 1e21, 1e22, 1e-5, 1e-4, 0.1 + 0.2, 2.0 ** 53, 2.0 ** 63, -2.0 ** 63, 2.0 ** 64]
+        while len(flts) < n // 3:
+            b = rng.next()
+            x = struct.unpack("<d", struct.pack("<Q", b))[0]
+            if x == x:
+                flts.append(x)
+        lines = []
+        meta = []
+        for v in ints:
+            lines.append("n%d Q %s" % (len(lines), val_tok(v))); meta.append(("qi", v))
+            lines.append("n%d T %s" % (len(lines), val_tok(v))); meta.append(("ti", v))
+        for v in flts + [float("nan")]:
+            lines.append("n%d Q %s" % (len(lines), val_tok(v))); meta.append(("qf", v))
+            if v == v and v not in (float("inf"), float("-inf")):
+                lines.append("n%d T %s" % (len(lines), val_tok(v))); meta.append(("tf", v))
+        # integer and string directives against C printf (Python's % operator implements C's rules for these)
+        specs = []
+        for conv in "diuxXoc":
+            for flags in ["", "-", "0", "+", " ", "#", "-0", "+0", "- ", "0 "]:
+                for width in ["", "1", "5", "12", "25"]:
+                    for prec in ["", ".0", ".3", ".12"]:
+                        specs.append("%" + flags + width + prec + conv)
+        for sp in ["%s", "%5s", "%-5s", "%.2s", "%10.3s", "%.0s", "%-8.5s", "%%", "a%sb%sc"]:
+            specs.append(sp)
+        for k in range(n // 3):
+            sp = rng.choice(specs)
+            conv = sp[-1]
+            if conv in "diuxXo":
+                v = rng.choice(ints)
+            elif conv == "c":
+                v = rng.choice([65, 97, 0, 10, 255, 48, 128])
+            else:
+                v = rng.choice([b"", b"a", b"hello", b"a\x00b", b"\xff\xfe", b"wide string here"])
+            args = [] if sp == "%%" else [v, v] if sp == "a%sb%sc" else [v]
+            lines.append("n%d F %s %s" % (len(lines), hexs(sp.encode()), vals_tok(args))); meta.append(("f", (sp, args)))
+        impl, model = self.both(lines)
+        for i, (kind, v) in enumerate(meta):
+            if i >= len(impl) or i >= len(model):
+                break
+            gi, mo = fields(impl[i]), fields(model[i])
+            ck.case(lines[i].split(" ", 1)[1], True)
+            ck.count("num:" + kind)
+            if kind == "qi":
+                ok = gi.get("L") == "K" and gi.get("V") == val_tok(v) and gi.get("T") == "integer"
+                if not ok:
+                    self.s_violation("load('return '..string.format('%%q', %d))() ~= %d" % (v, v),
+                                     {"kind": "Go!=S", "engine": "pack", "line": lines[i], "impl": impl[i], "model": model[i]})
+                if gi.get("Q") != mo.get("Q") or (gi.get("V") != mo.get("V")):
+                    self.im_difference(lines[i], impl[i], model[i])
+            elif kind == "ti":
+                ok = gi.get("S") == val_tok(str(v).encode()) and gi.get("N") == val_tok(v)
+                if not ok:
+                    self.s_violation("tonumber(tostring(%d)) ~= %d or tostring is not the decimal numeral" % (v, v),
+                                     {"kind": "Go!=S", "engine": "pack", "line": lines[i], "impl": impl[i], "model": model[i],
+                                      "theorems": ["C17_tonumber_tostring_int"]})
+                if gi.get("S") != mo.get("S") or gi.get("N") != mo.get("N"):
+                    self.im_difference(lines[i], impl[i], model[i])
+            elif kind == "qf":
+                # property: the loaded value == v under Lua's == (NaN: the result is NaN); -0.0 only under ==
+                got = gi.get("V", "-")
+                ok = gi.get("L") == "K" and lua_eq(got, v)
+                if not ok:
+                    self.s_violation("load('return '..string.format('%%q', %r))() ~= the float" % v,
+                                     {"kind": "Go!=S", "engine": "pack", "line": lines[i], "impl": impl[i]})
+            elif kind == "tf":
+                ok = lua_eq(gi.get("N", "-"), v)
+                if not ok:
+                    self.s_violation("tonumber(tostring(%r)) ~= the float" % v,
+                                     {"kind": "Go!=S", "engine": "pack", "line": lines[i], "impl": impl[i]})
+            else:
+                sp, args = v
+                exp = c_printf(sp, args)
+                got = go_class(gi.get("F", "?"))
+                if exp is None:
+                    continue
+                ck.count("fmt:" + sp[-1])
+                if got != "ok:" + val_tok(exp):
+                    kid = None
+                    if sp[-1] == "o" and args and args[0] < 0:
+                        kid = "C17-format-o-negative"
+                    elif sp[-1] in "xXo" and "#" in sp and args and args[0] == 0:
+                        kid = None
+                    if sp[-1] == "c" and (re.search(r"\.\d", sp)):
+                        kid = "C17-format-c-precision"
+                    if sp[-1] in "diuxXo" and "." in sp and "0" in sp[1:sp.index(".")].rstrip("123456789"):
+                        kid = kid or "C17-format-zero-flag-with-precision"
+                    if kid and self.known(kid):
+                        ck.count("known:" + kid)
+                    else:
+                        self.s_violation("string.format(%r, ...) differs from C printf: expected %r, got %s" % (sp, exp, got),
+                                         {"kind": "Go!=S", "engine": "pack", "line": lines[i], "impl": impl[i], "expected": val_tok(exp)})
+
     def finish_pack(self):
         ck = self.ck
         if self.im_diff and not self.s_fail:
@@ -854,6 +1014,66 @@ class State:
                          no_input=True)
         elif self.im_diff:
             ck.log("%d Go≠IM differences (first: %s)" % (self.im_diff, self.first_im))
+
+
+def lua_eq(tok, v):
+    """tok: canonical value from the harness; v: python float.  Lua's == between numbers."""
+    if v != v:
+        return tok == "fnan"
+    if tok.startswith("i"):
+        n = int(tok[1:])
+        return v == n and abs(v) < 2.0 ** 63 + 1 and float(n) == v and int(v) == n
+    if tok.startswith("f") and tok != "fnan":
+        x = struct.unpack("<d", struct.pack("<Q", int(tok[1:], 16)))[0]
+        return x == v
+    return False
+
+
+def c_printf(sp, args):
+    """C printf for the integer/char/string directives (via Python's % operator, which follows C here);
+    None when C leaves it undefined (flag combinations printf does not define for that conversion)."""
+    if sp == "%%":
+        return b"%"
+    conv = sp[-1]
+    body = sp[1:-1]
+    try:
+        if conv in "di":
+            if "#" in body:
+                return None
+            return (("%" + body + "d") % args[0]).encode()
+        if conv == "u":
+            if "#" in body or "+" in body or " " in body:
+                return None
+            return (("%" + body + "d") % (args[0] % (1 << 64))).encode()
+        if conv in "xXo":
+            if "+" in body or " " in body or (conv == "o" and "#" in body):
+                return None
+            return (("%" + body + conv) % (args[0] % (1 << 64))).encode()
+        if conv == "c":
+            if "0" in body.split(".")[0].lstrip("-+ #")[:1] or "#" in body or "+" in body or " " in body or "." in body:
+                return None
+            w = body.lstrip("-")
+            s = bytes([args[0] % 256])
+            n = int(w) if w else 0
+            return s.ljust(n) if body.startswith("-") else s.rjust(n)
+        if conv == "s":
+            out = b""
+            parts = sp.split("%s")
+            if len(parts) == 3:
+                return parts[0].encode() + args[0] + parts[1].encode() + args[1] + parts[2].encode()
+            m = re.match(r"%(-?)(\d*)(?:\.(\d+))?s$", sp)
+            if not m:
+                return None
+            s = args[0]
+            if b"\x00" in s and (m.group(2) or m.group(3)):
+                return None      # the manual: strings with embedded zeros need a plain %s
+            if m.group(3) is not None:
+                s = s[:int(m.group(3))]
+            n = int(m.group(2)) if m.group(2) else 0
+            return s.ljust(n) if m.group(1) else s.rjust(n)
+    except (ValueError, TypeError):
+        return None
+    return None
 
 
 def replay(path, seed):
